@@ -62,7 +62,7 @@ TEXTS = {
         "technique": "static path-wise symbolic expansion + signed-sum normal form (term accounting); partial claim",
     },
     "C04": {
-        "level_text": "Necessary conditions for row-by-row agreement of samples and densities: symbolic expansion proves sample_and_log_prob returns (inverse(noise)[0], base_lp - inverse(noise)[1]) from one base draw and one inverse call, Flow.sample inverts base noise, all three entry points condition the base distribution and the transform on one and the same function of the context (SLP-CTX), and at the seven sites that merge a [rows, n] pair the context/parameters are replicated row-major and split back as [rows, n] (tiling is a definite error). The statistical half -- samples follow exp(log_prob) -- is out of reach and NOT claimed.",
+        "level_text": "Necessary conditions for row-by-row agreement of samples and densities: symbolic expansion proves sample_and_log_prob returns (inverse(noise)[0], base_lp - inverse(noise)[1]) from one base draw and one inverse call, Flow.sample inverts base noise, all three entry points condition the base distribution and the transform on one and the same function of the context (SLP-CTX), and an abstract leading-axis layout (rows / pair / merged(outer, inner) / fresh noise) evaluated over the eight samplers shows that merged [rows x samples] axes are built, combined and split in one order (LEAD-LAYOUT: noise drawn sample-major, tiled contexts, per-row parameters broadcast onto the sample axis are definite errors). The statistical half -- samples follow exp(log_prob) -- is out of reach and NOT claimed.",
         "design_ref": "DESIGN.md 2.C04",
         "level_note": "Trusted: helper semantics of repeat_rows/merge_leading_dims/split_leading_dim (checked under C20), the transform contract, A-API.",
         "technique": "static symbolic expansion with signed-sum normal form + call-site pairing rule for row replication",
